@@ -13,10 +13,17 @@ abbrev Vers := List (String × Nat)
 
 def ver (vs : Vers) (k : String) : Nat := (Dict.get? vs k).getD 0
 
+/-- `_version_key_part`: a '.' (and the escape character) inside a name is escaped, so that it does not read
+    as the separator of two parts of a path -/
+def escChar (c : Char) : List Char :=
+  if c = '\\' then ['\\', '\\'] else if c = '.' then ['\\', '.'] else [c]
+
+def esc (k : String) : String := String.ofList (k.toList.flatMap escChar)
+
 def path (pre : Option String) (k : String) : String :=
   match pre with
-  | none => k
-  | some p => p ++ "." ++ k
+  | none => esc k
+  | some p => p ++ "." ++ esc k
 
 mutual
 /-- `_get_published_keys_recursively`: leaf paths of a published dict. -/
